@@ -22,8 +22,8 @@ Init == /\ IF UseCases THEN \E c \in 1..Len(Cases) : n = Cases[c].n /\ e = Cases
 Next == phase = 0 /\ phase' = 1 /\ UNCHANGED <<n, e>>
 
 Triples(m) == {t \in (0..m - 1) \X (0..m - 1) \X (0..m - 1) : t[1] > t[2] /\ t[2] > t[3]}
-TLess(a, b) == a[1] < b[1] \/ (a[1] = b[1] /\ (a[2] < b[2] \/ (a[2] = b[2] /\ a[3] < b[3])))
-TripleSeq(m) == SetToSortSeq(Triples(m), TLess)
+\* the triples in ascending order, built directly (no sorting): i = a - 1 > j = b - 1 > k = c - 1
+TripleSeq(m) == FlattenSeq([a \in 1..m |-> FlattenSeq([b \in 1..a - 1 |-> [c \in 1..b - 1 |-> <<a - 1, b - 1, c - 1>>]])])
 M(th, x) == Ref("m", <<th, x>>)
 V(th, x) == Ref("v", <<th, x>>)
 Alpha(i, j, k, x) == Add(<<Mul(<<V(i, x), V(j, x)>>), Mul(<<V(j, x), V(k, x)>>), Mul(<<V(i, x), V(k, x)>>)>>)
@@ -38,7 +38,8 @@ Direct(m, ne) == LET ts == TripleSeq(m) IN LSE([q \in 1..Len(ts) |-> TripleTerm(
 
 (* ---- structural clauses ---- *)
 Choose3(m) == (m * (m - 1) * (m - 2)) \div 6
-AllTriplesOnce == phase = 1 => Cardinality(Triples(n)) = Choose3(n) /\ Len(Direct(n, e).xs) = Choose3(n)
+AllTriplesOnce == phase = 1 => /\ Len(TripleSeq(n)) = Choose3(n) /\ Len(Direct(n, e).xs) = Choose3(n)
+                                /\ (n <= 12 => {TripleSeq(n)[q] : q \in 1..Len(TripleSeq(n))} = Triples(n))
 OwnCellsOnly == phase = 1 => \A r \in Refs(Direct(n, e)) :
                     \/ (r[1] \in {"m", "v"} /\ r[2][1] \in 0..n - 1 /\ r[2][2] \in 0..e - 1)
                     \/ (r[1] = "d" /\ r[2][1] > r[2][2])
